@@ -861,6 +861,33 @@ func exDiffModDangling(x, y interface{}, at string) string {
 	return ""
 }
 
+// exFindRefText returns the first `$ref` text anywhere in v that satisfies p ("" when none does).
+func exFindRefText(v interface{}, p func(string) bool) string {
+	switch x := v.(type) {
+	case map[string]interface{}:
+		if r, ok := x["$ref"].(string); ok && p(r) {
+			return r
+		}
+		keys := make([]string, 0, len(x))
+		for k := range x {
+			keys = append(keys, k)
+		}
+		sort.Strings(keys)
+		for _, k := range keys {
+			if r := exFindRefText(x[k], p); r != "" {
+				return r
+			}
+		}
+	case []interface{}:
+		for _, e := range x {
+			if r := exFindRefText(e, p); r != "" {
+				return r
+			}
+		}
+	}
+	return ""
+}
+
 // exFirstDiff: a pointer to the first position at which two JSON values differ ("" when they are equal).
 func exFirstDiff(a, b interface{}, at string) string {
 	switch x := a.(type) {
@@ -1021,6 +1048,17 @@ func checkC10(in *exInput) []exFinding {
 	if res.Err {
 		fs = append(fs, exFinding{Shape: exShape("entry:"+in.Entry, g, o.Abs, in.Pointer), What: in.Op + " fails on an element whose references all resolve", Obs: res.ErrText})
 		return fs
+	}
+	if in.Entry != "base_path" {
+		// the root was handed over as a value: what is left behind must be readable against THAT root, i.e. fragment-only
+		// when it points into it — the pseudo location under which the library files the root internally must not leak
+		if leak := exFindRefText(exDecode(res.Out), func(r string) bool {
+			u := strings.SplitN(r, "#", 2)[0]
+			return u == ".root" || strings.HasSuffix(u, "/.root")
+		}); leak != "" {
+			fs = append(fs, exFinding{Shape: exShape("entry-pseudo-root-leaks", g, o.Abs, in.Pointer), What: in.Op + " (" + in.Entry + "): a `$ref` left in the result names the library's internal pseudo location of the root instead of being fragment-only", Obs: leak})
+			return fs
+		}
 	}
 	got := s.unfold(loc, exDecode(res.Out), kind, exDepth)
 	if exJSON(got) != exJSON(want) {
